@@ -81,6 +81,7 @@ func (r *x05Rig) replay(h *x05Hist, stats map[string]int) error {
 			"step %d (%s %s %s): %s", i, st.Ev, st.W, st.S, fmt.Sprintf(format, a...))
 	}
 	defer func() {
+		// one at a time: two tunnels ending together would race on the gauge (a lead of its own, not this test's business)
 		for _, s := range slots {
 			if s.token != "" {
 				r.holdChan(s.token) <- 200
@@ -89,6 +90,8 @@ func (r *x05Rig) replay(h *x05Hist, stats map[string]int) error {
 			if s.conn != nil {
 				x05WSClose(s.conn)
 			}
+			inflight--
+			r.settle(inflight)
 		}
 	}()
 	for i, st := range h.Steps {
